@@ -32,6 +32,7 @@ DEFAULT = {
     "p_go_early": 0.0,       # probability that a frame's first transition is declared before its auxiliary clauses (it then still
                              # fires while a conditional auxiliary of that frame suspends the frames below)
     "p_go_me_parent": 0.0,   # probability that a frame with children gets a periodic forced re-entry ('go me if recurred >= k')
+    "p_abort_end": 0.0,  # probability that the clock framer ends the run with 'bid abort all' instead of stopping the framers first
     "p_staged": 0.0,     # probability of a master framer walking a slave through a drawn sequence of fiats, one per frame
 }
 
@@ -298,10 +299,18 @@ def gen_program(g, cfg=None):
         envf = {"name": "zenv", "sched": "active", "order": g.choice(["front", "back", None]), "period": None, "pdec": "0", "first": "zenv0",
                 "frames": [{"name": "zenv0", "over": None, "acts": [{"k": "env", "ctx": "recur", "eid": 0}]}]}
         framers.insert(g.randint(0, len(framers)), envf)
+    end_bid = {"k": "bid", "ctx": "enter", "control": "stop", "who": [f["name"] for f in framers if f["sched"] in ("active", "inactive")] or ["me"]}
+    if cfg.get("p_abort_end", 0.0):
+        import hashlib
+        import random as _random
+        side = _random.Random(int(hashlib.sha256(repr(g.getstate()).encode()).hexdigest()[:16], 16))
+        if side.random() < cfg["p_abort_end"]:
+            # the run ends by aborting everything that is still running (the clock framer included) instead of stopping it
+            # first: the frames' exit actions run during the abort tick, the last tasker of that tick with nothing else scheduled
+            end_bid = {"k": "bid", "ctx": "enter", "control": "abort", "who": ["all"]}
     clk = {"name": "zclk", "sched": "active", "order": g.choice(["front", "back", None]), "period": None, "pdec": "0", "first": "zclk0",
            "frames": [{"name": "zclk0", "over": None, "acts": [{"k": "repeat", "n": ticks}]},
-                      {"name": "zclk1", "over": None, "acts": [{"k": "bid", "ctx": "enter", "control": "stop", "who": [f["name"] for f in framers if f["sched"] in ("active", "inactive")] or ["me"]},
-                                                                 {"k": "repeat", "n": 2}]},
+                      {"name": "zclk1", "over": None, "acts": [end_bid, {"k": "repeat", "n": 2}]},
                       # abort is final: whatever the other framers' exit actions bid, the run ends
                       {"name": "zclk2", "over": None, "acts": [{"k": "bid", "ctx": "recur", "control": "abort", "who": ["all"]}]}]}
     framers.insert(g.randint(0, len(framers)), clk)
